@@ -14,7 +14,8 @@ Section Out.
 
   (* ---------------------------------------------------------------- junk: IN_IGNORED records of forgotten descriptors *)
   Definition junk_ev (k : kst) (r : rstate) (a : kraw) : Prop :=
-    alookup N.eqb (k_wd a) (pfw r) = None /\ (forall kw, In kw (k_watches k) -> kw_wd kw <> k_wd a).
+    alookup N.eqb (k_wd a) (pfw r) = None /\ (forall kw, In kw (k_watches k) -> kw_wd kw <> k_wd a) /\
+    (k_wd a < k_next_wd k)%N.
 
   (* synchronised up to junk in the kernel queue *)
   Record JSync (w : world) (k : kst) (r : rstate) : Prop := {
@@ -126,7 +127,7 @@ Section Out.
     intros M [S HJ] Ho Ha k1.
     assert (Q : qext (k_queue k) k (kset_queue k [])) by (repeat split; cbn; now rewrite ?app_nil_r).
     assert (JF : jfree (k_queue k) (kset_queue k [])).
-    { intros a kw Ha' Hk. rewrite Forall_forall in HJ. destruct (HJ a Ha') as [_ H]. now apply H. }
+    { intros a kw Ha' Hk. rewrite Forall_forall in HJ. destruct (HJ a Ha') as [_ [H _]]. now apply H. }
     assert (Q1 := kernel_op_qext _ _ _ (w_fs w) o Q JF). fold k1 in Q1.
     destruct (cover_step_safe C Hfaults w (kset_queue k []) r o w' M S Ho Ha) as (r' & k' & evs & Hrd & S' & Hsafe).
     exists r', k', evs. split; [|split; assumption].
@@ -1003,7 +1004,7 @@ Section Out.
       { assert (Hq2 := rs_queue _ _ _ _ S2). clear -QA QB QD Hq2. destruct k2 as [a1 a2 a3 a4], kb as [b1 b2 b3 b4]. cbn in *. subst. reflexivity. }
       now rewrite Ek.
     - rewrite QE. apply Forall_forall. intros a Ha'. rewrite Forall_forall in GF. specialize (GF a Ha').
-      destruct (D2 _ GF) as (_ & B & P1 & _). split; [exact P1 | exact B].
+      destruct (D2 _ GF) as (A & B & P1 & _). split; [exact P1 | split; [exact B | exact A]].
   Qed.
 
   (* ---------------------------------------------------------------- an operation in a watched directory produces a record *)
@@ -1089,7 +1090,7 @@ Section Out.
     intros [S HJ] Np Nq Hrec Hmf Hmt Ha Elp Dep Sp Hpr Sq k1.
     assert (Q : qext (k_queue k) k (kset_queue k [])) by (repeat split; cbn; now rewrite ?app_nil_r).
     assert (JF : jfree (k_queue k) (kset_queue k [])).
-    { intros a kw Ha' Hk. rewrite Forall_forall in HJ. destruct (HJ a Ha') as [_ H]. now apply H. }
+    { intros a kw Ha' Hk. rewrite Forall_forall in HJ. destruct (HJ a Ha') as [_ [H _]]. now apply H. }
     assert (Q1 := kernel_op_qext _ _ _ (w_fs w) (Rename p q) Q JF). fold k1 in Q1.
     destruct (out_pout w (kset_queue k []) r p q w' ep S Np Nq Hrec Hmf Hmt Ha Elp Dep Sp Hpr Sq) as (r' & k' & evs & Hrd & PO & Hsafe).
     exists r', k', evs. split; [|split; assumption].
